@@ -635,6 +635,11 @@ func checkC11(c *Ctx) {
 		held := 0
 		for i := 0; i < steps; i++ {
 			kind := c11OpKinds[r.Intn(len(c11OpKinds))]
+			if i == steps-1 && nameHash(cs.Name)%5 == 0 {
+				// (one history in five ends with a change that leaves its file in error or
+				// takes it away, whatever the PRNG chose)
+				kind = []string{"truncate", "unlink", "create-invalid", "rename-away"}[nameHash(cs.Name)/5%4]
+			}
 			pace := pickStr(r, "now", "now", "yield", "quiesce", "hold", "during-scan")
 			run := func() {
 				if d := w.do(kind); d != "" {
